@@ -117,6 +117,15 @@ def generate(rng, focus, tier="quick"):
             if not long_only and rng.random() < 0.4:
                 v = -v
             w[a] = v
+        if rng.random() < 0.15:
+            # weight vectors that are *almost* normalised: thirds rounded to six decimals, 1 +/- a few 1e-6 ...
+            n = len(keys)
+            base = round(1.0 / n, 6)
+            w = dict((a, base) for a in keys)
+            if rng.random() < 0.5:
+                w[keys[0]] = round(w[keys[0]] + rng.choice([-9e-6, -2e-6, 1e-6, 2e-6, 6e-6, 2e-5]), 6)
+            if not long_only and rng.random() < 0.3:
+                w[keys[-1]] = -w[keys[-1]]
         if "all_zero_weights" in enabled and rng.random() < 0.1:
             w = dict((a, 0.0) for a in w)
         step = {"k": "rebalance", "t": now, "weights": w}
